@@ -53,6 +53,8 @@ def run(ctx):
                 for part in (cnd[2:] if T.is_op(cnd, 'AND') else [cnd]):
                     if T.is_op(part, 'NOT'):
                         marks |= _marker_disjuncts(part[2])
+            # only tests of the last character are marker tests (other refusals on the way - a length limit - are not)
+            marks = {m_ for m_ in marks if T.is_op(m_, 'EQ') and last in m_[2:]}
             want = {T.eq(T.const("'"), last), T.eq(T.const('h'), last)}
             ob.require(want <= marks and marks <= want | {T.eq(T.const('H'), last)},
                        "the marker test recognises exactly ' and h (equivalently)", fconv.where,
